@@ -34,8 +34,17 @@ func main() {
 		fmt.Sscan(os.Args[3], &n)
 		r := vh.NewRNG(seed)
 		var lines []string
+		mode := ""
+		if len(os.Args) > 4 {
+			mode = os.Args[4]
+		}
 		for k := uint64(0); k <= n; k++ {
-			lines = genE2E(r.Fork(), len(os.Args) > 4)
+			switch mode {
+			case "upd", "updbls":
+				lines = genE2EUpdate(r.Fork(), mode == "updbls")
+			default:
+				lines = genE2E(r.Fork(), mode == "lag", mode == "bls")
+			}
 		}
 		fmt.Println(strings.Join(lines, "\n"))
 		return
@@ -52,7 +61,7 @@ func debugScript(lines []string, drvPath string) {
 	defer drv.Close()
 	var w *world
 	for _, l := range lines {
-		if strings.HasPrefix(l, "E2E ") {
+		if strings.HasPrefix(l, "E2E") {
 			w, err = newE2EWorld(l)
 			if err != nil {
 				fmt.Println(err)
@@ -65,7 +74,7 @@ func debugScript(lines []string, drvPath string) {
 	}
 	drv.Ask("R")
 	for _, l := range lines {
-		if strings.HasPrefix(l, "E2E ") {
+		if strings.HasPrefix(l, "E2E") {
 			continue
 		}
 		if strings.HasPrefix(l, "U ") {
